@@ -176,6 +176,8 @@ def _roles():
         'Table.from_hdf5': {'h5grp': lambda P: V('h5')},
         'Table.from_json': {'json_table': lambda P: V('jsondoc')},
         'Table.update_ids': {},
+        'Table.collapse': {'min_group_size': lambda P: V('len', ax=P,
+                                                         c='param')},
         'Table.head': {'n': lambda P: V('len', ax=O, c='param'),
                        'm': lambda P: V('len', ax=S, c='param')},
         'Table.align_to': {'other': lambda P: V('table', own='other')},
@@ -475,6 +477,9 @@ class AxisInterp:
         elif isinstance(target, ast.Attribute):
             if target.attr == '_data' and dotted(target):
                 env[dotted(target)] = val
+            rv = self.ev(target.value, env)
+            if rv.k == 'table' and rv.own and rv.own.endswith("'"):
+                env['$dirty:' + rv.own] = V('const', c=True)
             self.field_store(target, val, env, st)
         elif isinstance(target, ast.Subscript) and isinstance(
                 target.value, ast.Name) and val.k == 'tuple' and val.c == \
@@ -1009,6 +1014,20 @@ class AxisInterp:
                 elif idx.k in ('per', 'pos') and idx.ax and base.ax:
                     self.sink('OWNER', e, 'select:%s' % base.k, 'ok',
                               'selector and collection on the same axis')
+                if idx.k == 'per' and idx.own and base.own and \
+                        idx.own != base.own and \
+                        idx.own.rstrip("'") == base.own.rstrip("'"):
+                    # a table and its copy: the mask only fits while the
+                    # copy has not been changed since it was taken
+                    dirty = [o for o in (idx.own, base.own)
+                             if o.endswith("'") and
+                             env.get('$dirty:' + o) is not None]
+                    self.sink('OWNER', e, 'select-owner:%s' % base.k,
+                              'bad' if dirty else 'ok',
+                              "a mask computed on table '%s' selects %s of "
+                              "table '%s' after the copy was changed in "
+                              "place" % (idx.own, base.k, base.own)
+                              if dirty else 'copy unchanged since taken')
                 return base
             elk = {'ids': 'id', 'md': 'md1', 'pos': 'pos1'}.get(base.k)
             if idx.k in ('top', 'cmethod', 'raw'):
@@ -1493,6 +1512,14 @@ class AxisInterp:
     def table_method(self, e, recv, meth, env):
         own = self.named_owner(recv, e.func.value, env)
         args = e.args
+        if own and own.endswith("'") and (
+                meth in ('add_metadata', 'del_metadata', '_cast_metadata',
+                         '_index_ids') or (
+                    meth in ('filter', 'transform', 'norm', 'pa', 'rankdata',
+                             'update_ids', 'remove_empty') and not (
+                        isinstance(kwarg(e, 'inplace'), ast.Constant) and
+                        kwarg(e, 'inplace').value is False))):
+            env['$dirty:' + own] = V('const', c=True)
         if meth == 'ids':
             ax, an = self.axis_arg(e, meth, env, 0)
             sym = ('sym', an.id) if ax not in (O, S) and isinstance(
